@@ -76,9 +76,9 @@ SPEC = {
                         "same text (rm_frame: such a line goes only with a removed segment it mentions, cascade_plain); "
                         "a rename substitutes the identifier in every mention (rename_mentions), the renamed line carries the new identifier "
                         "(rename_carrier) and every line that does not mention the old identifier is literally unchanged (rename_frame)",
-                        "where two parallel links (stored or placeholder) fit one step of a path, the model resolves the step to the first stored link that "
-                        "fits and keeps the path as long as some link fits, the library binds the step to a link object and removes the path with it: "
-                        "states with parallel links under a path step are not compared by the correspondence (the property does not pin the case down)",
+                        "a path goes with the link a step of it is bound to - the first stored link that fits the step, as the library binds the step to a link "
+                        "object - also when a second, parallel link would still satisfy the step (corrected after the thorough tier: the model used to "
+                        "keep such a path)",
                         "rm(line) / disconnect and set / delete of a tag are modelled (GfaModel/Edit.lean: the line is designated by its written form; the text of "
                         "the new tag is the library's, its place in the line is the model's) and run through the same correspondence; proved: a tag edit "
                         "changes neither record type, identifier nor any reference of the line, leaves the positional fields and every other line as "
